@@ -116,6 +116,11 @@ func (r *logger) PushBlobChunked(ctx context.Context, repoName string, chunkSize
 	r.logf("PushBlobChunked %s chunkSize=%d {", repoName, chunkSize)
 	w, err := r.r.PushBlobChunked(ctx, repoName, chunkSize)
 	r.logf("} -> %T(%s), %v", w, bwid, err)
+	if err != nil {
+		// Do not wrap a writer that does not exist: a caller that
+		// closes whatever it was handed would dereference nil.
+		return nil, err
+	}
 	return blobWriter{
 		id: bwid,
 		w:  w,
@@ -128,6 +133,9 @@ func (r *logger) PushBlobChunkedResume(ctx context.Context, repoName, id string,
 	r.logf("PushBlobChunkedResume %s id=%q offset=%d chunkSize=%d {", repoName, id, offset, chunkSize)
 	w, err := r.r.PushBlobChunkedResume(ctx, repoName, id, offset, chunkSize)
 	r.logf("} -> %T(%s), %v", w, bwid, err)
+	if err != nil {
+		return nil, err
+	}
 	return blobWriter{
 		id: bwid,
 		w:  w,
